@@ -1495,3 +1495,585 @@ func text(v reflect.Value) string {
 	return fmt.Sprintf("%v %T", v, v.Interface())
 }
 `
+
+// ---------------------------------------------------------------------------
+// R-KINDREACH
+
+func init() {
+	register(&Rule{ID: "R-KINDREACH", Floor: 10, Run: ruleKindReach,
+		Text: "A host value of a kind the engine represents is converted whatever the value is: in the function that switches on the reflect.Kind of a host value, for every kind of the documented table (the signed integers, the small unsigned ones, the floats, string, bool, slice, map) no path that the kind admits ends in a freshly made null — a nil slice is a slice of no elements and becomes the empty array, a nil map the empty hash, a zero a zero.  (Path-sensitive walk of the function for each kind: comparisons of the kind are decided, the validity test is taken as passed, results of the module's own conversion functions are non-nil by R-NONNIL.)"})
+}
+
+func ruleKindReach(p *Program, r *Reporter) {
+	var conv *ssa.Function
+	for _, fn := range p.LibFns {
+		if fnPkg(fn).Pkg.Path() != Mod+"/vm" || fn.Parent() != nil {
+			continue
+		}
+		ps, rs := sigParams(fn), sigResults(fn)
+		if len(ps) != 1 || !isStdNamed(ps[0], "reflect", "Value") || len(rs) != 1 || !isObjectIface(rs[0]) {
+			continue
+		}
+		// it compares the kind of its parameter with several constants
+		n := 0
+		for _, b := range fn.Blocks {
+			for _, ins := range b.Instrs {
+				if bo, ok := ins.(*ssa.BinOp); ok && bo.Op == token.EQL && isStdNamed(bo.X.Type(), "reflect", "Kind") {
+					n++
+				}
+			}
+		}
+		if n >= 6 {
+			conv = fn
+		}
+	}
+	if conv == nil {
+		r.Undecided("kind switch", "-", "cannot find the function that switches on the kind of a host value")
+		return
+	}
+	var reflectPkg *types.Package
+	for _, imp := range fnPkg(conv).Pkg.Imports() {
+		if imp.Path() == "reflect" {
+			reflectPkg = imp
+		}
+	}
+	if reflectPkg == nil {
+		r.Undecided("kind switch", p.Pos(conv.Pos()), "package reflect is not imported where the kind switch is")
+		return
+	}
+	kindVal := func(name string) (int64, bool) {
+		c, ok := reflectPkg.Scope().Lookup(name).(*types.Const)
+		if !ok {
+			return 0, false
+		}
+		return constant.Int64Val(c.Val())
+	}
+	param := conv.Params[len(conv.Params)-1]
+	isCallOn := func(v ssa.Value, name string) bool {
+		c, ok := v.(*ssa.Call)
+		if !ok || c.Call.StaticCallee() == nil {
+			return false
+		}
+		f := c.Call.StaticCallee()
+		return f.Pkg != nil && f.Pkg.Pkg.Path() == "reflect" && f.Name() == name && len(c.Call.Args) > 0 && c.Call.Args[0] == ssa.Value(param)
+	}
+	freshNull := func(v ssa.Value) bool {
+		mi, ok := v.(*ssa.MakeInterface)
+		if !ok {
+			return false
+		}
+		al, ok := mi.X.(*ssa.Alloc)
+		return ok && objectStructName(al.Type()) == "Null"
+	}
+	kinds := []string{"Int", "Int8", "Int16", "Int32", "Int64", "Uint8", "Uint16", "Uint32", "Float32", "Float64", "String", "Bool", "Slice", "Map"}
+	for _, kn := range kinds {
+		kv, ok := kindVal(kn)
+		if !ok {
+			continue
+		}
+		key := "host kind " + kn + "/no value of the kind ends as a freshly made null"
+		steps := 0
+		var badPos token.Pos
+		bad := false
+		var walk func(b, from *ssa.BasicBlock, env map[*ssa.Phi]ssa.Value)
+		resolve := func(v ssa.Value, env map[*ssa.Phi]ssa.Value) ssa.Value {
+			for i := 0; i < 8; i++ {
+				switch x := v.(type) {
+				case *ssa.Phi:
+					if e, ok := env[x]; ok {
+						v = e
+						continue
+					}
+				case *ssa.UnOp:
+					// a load of the result variable: the last store on this path is not
+					// tracked — left unresolved
+				}
+				break
+			}
+			return v
+		}
+		// tri: 1 true, 0 false, -1 unknown
+		var truth func(v ssa.Value, env map[*ssa.Phi]ssa.Value) int
+		truth = func(v ssa.Value, env map[*ssa.Phi]ssa.Value) int {
+			v = resolve(v, env)
+			switch x := v.(type) {
+			case *ssa.Const:
+				if x.Value != nil && x.Value.Kind() == constant.Bool {
+					if constant.BoolVal(x.Value) {
+						return 1
+					}
+					return 0
+				}
+			case *ssa.UnOp:
+				if x.Op == token.NOT {
+					if t := truth(x.X, env); t >= 0 {
+						return 1 - t
+					}
+				}
+			case *ssa.Call:
+				if isCallOn(x, "IsValid") {
+					return 1
+				}
+			case *ssa.BinOp:
+				if x.Op != token.EQL && x.Op != token.NEQ {
+					return -1
+				}
+				res := -1
+				l, rr := resolve(x.X, env), resolve(x.Y, env)
+				if isCallOn(l, "Kind") {
+					if k, ok := rr.(*ssa.Const); ok {
+						if i, ok := constantInt64(k); ok {
+							res = 0
+							if i == kv {
+								res = 1
+							}
+						}
+					}
+				} else if k, ok := rr.(*ssa.Const); ok && k.IsNil() {
+					switch y := l.(type) {
+					case *ssa.MakeInterface:
+						res = 0
+					case *ssa.Call:
+						if f := y.Call.StaticCallee(); f != nil && fnPkg(f) != nil && IsLibPath(fnPkg(f).Pkg.Path()) {
+							if rs := sigResults(f); len(rs) == 1 && isObjectIface(rs[0]) {
+								res = 0 // R-NONNIL: no conversion function of the module yields nil
+							}
+						}
+					case *ssa.Const:
+						if y.IsNil() {
+							res = 1
+						}
+					}
+				}
+				if res >= 0 && x.Op == token.NEQ {
+					res = 1 - res
+				}
+				return res
+			}
+			return -1
+		}
+		walk = func(b, from *ssa.BasicBlock, env map[*ssa.Phi]ssa.Value) {
+			steps++
+			if bad || steps > 20000 {
+				return
+			}
+			// φ-nodes take the value of the edge we came in by
+			local := env
+			copied := false
+			for _, ins := range b.Instrs {
+				phi, ok := ins.(*ssa.Phi)
+				if !ok {
+					break
+				}
+				if from == nil {
+					continue
+				}
+				for i, pb := range b.Preds {
+					if pb == from {
+						if !copied {
+							local = map[*ssa.Phi]ssa.Value{}
+							for k, v := range env {
+								local[k] = v
+							}
+							copied = true
+						}
+						local[phi] = resolve(phi.Edges[i], env)
+					}
+				}
+			}
+			switch t := terminator(b).(type) {
+			case *ssa.Return:
+				if len(t.Results) == 1 {
+					v := resolve(returnOperand(t, 0), local)
+					if freshNull(v) {
+						bad, badPos = true, t.Pos()
+					}
+				}
+				return
+			case *ssa.If:
+				switch truth(t.Cond, local) {
+				case 1:
+					walk(b.Succs[0], b, local)
+				case 0:
+					walk(b.Succs[1], b, local)
+				default:
+					walk(b.Succs[0], b, local)
+					walk(b.Succs[1], b, local)
+				}
+				return
+			}
+			for _, s := range b.Succs {
+				walk(s, b, local)
+			}
+		}
+		walk(conv.Blocks[0], nil, map[*ssa.Phi]ssa.Value{})
+		switch {
+		case steps > 20000:
+			r.Undecided(key, p.Pos(conv.Pos()), "too many paths to enumerate")
+		case bad:
+			r.Fail(key, p.Pos(posOr(badPos, conv.Pos())), "for a host value of kind "+kn+" there is a path through "+p.FnName(conv)+" that returns a freshly made null although the kind is one the engine represents: the value decides whether the field is converted — a slice or map that was never allocated arrives as null, so len() of it is 4 (the length of the text \"null\") and foreach over it fails, where the empty array / hash was due")
+		default:
+			r.OkNT(key, p.Pos(conv.Pos()), fmt.Sprintf("%d step(s) of the path-sensitive walk; every return is the converted value", steps))
+		}
+	}
+}
+
+// ---------------------------------------------------------------------------
+// R-WHITESPACE
+
+func init() {
+	register(&Rule{ID: "R-WHITESPACE", Floor: 1, Run: ruleWhitespace,
+		Text: "What the lexer skips between tokens is the language's white space and nothing else: a loop of the lexer that only advances (keeps no character) and that skips a space but not a letter or a digit — the white-space skipper, as opposed to the comment skipper — skips, of all characters, exactly space, tab, line feed and carriage return.  (Its continuation condition is evaluated symbolically for every code point up to U+3100 and a few beyond, the classes of package unicode included.)  A skipper that follows unicode.IsSpace silently drops form feed, vertical tab, NEL, the no-break space and the Unicode space separators, which are illegal characters of a script: Prepare must report them, not lose them."})
+}
+
+func ruleWhitespace(p *Program, r *Reporter) {
+	adv := lexAdvance(p)
+	if adv == nil {
+		r.Undecided("lexer advance", "-", "cannot find the function that reads the next character")
+		return
+	}
+	allowed := map[rune]bool{' ': true, '\t': true, '\n': true, '\r': true}
+	var probes []rune
+	for c := rune(1); c <= 0x3100; c++ {
+		probes = append(probes, c)
+	}
+	probes = append(probes, 0xFEFF, 0xFFFD, 0x10000, 0x1F600, 0xE0020, 0x10FFFF)
+	n := 0
+	for _, lp := range charLoops(p, adv) {
+		{
+			fn, h, loopNo, skips := lp.fn, lp.h, lp.no, lp.skips
+			if !lp.onlyAdvances {
+				continue
+			}
+			sp, ok1 := skips(' ')
+			le, ok2 := skips('a')
+			di, ok3 := skips('7')
+			if !ok1 || !ok2 || !ok3 {
+				continue // not a loop whose condition is a function of the character alone
+			}
+			if !sp || le || di {
+				continue // the comment skipper, a reader: not the white-space skipper
+			}
+			n++
+			key := fmt.Sprintf("%s/loop %d skips white space and nothing else", p.FnName(fn), loopNo)
+			bad, und := "", ""
+			for c := range allowed {
+				if v, ok := skips(c); ok && !v {
+					bad = fmt.Sprintf("%q is not skipped", c)
+				}
+			}
+			for _, c := range probes {
+				if allowed[c] {
+					continue
+				}
+				v, ok := skips(c)
+				if !ok && und == "" {
+					und = fmt.Sprintf("cannot evaluate the condition for U+%04X", c)
+				}
+				if ok && v && bad == "" {
+					bad = fmt.Sprintf("U+%04X is skipped", c)
+				}
+			}
+			switch {
+			case bad != "":
+				r.Fail(key, p.Pos(firstPos(h)), bad+": the white space of the language is space, tab, line feed and carriage return; any other character outside a literal is an illegal character that Prepare reports — a skipper that follows unicode.IsSpace drops form feed, vertical tab, U+0085, U+00A0 and the Unicode space separators silently, and the script is accepted with the character lost")
+			case und != "":
+				r.Undecided(key, p.Pos(firstPos(h)), und)
+			default:
+				r.OkNT(key, p.Pos(firstPos(h)), fmt.Sprintf("evaluated for %d code points: exactly space, tab, LF, CR are skipped", len(probes)))
+			}
+		}
+	}
+	if n == 0 {
+		r.Undecided("white-space skipper", "-", "no loop of the lexer that only advances and skips a space but not a letter was found")
+	}
+}
+
+// charLoop: a loop of the lexer that advances over characters, with its
+// continuation condition as a function of the current character.
+type charLoop struct {
+	fn           *ssa.Function
+	h            *ssa.BasicBlock
+	no           int
+	onlyAdvances bool // keeps nothing of what it passes
+	skips        func(c rune) (goesRound bool, known bool)
+}
+
+func charLoops(p *Program, adv *ssa.Function) []charLoop {
+	var out []charLoop
+	for _, fn := range lexerFns(p) {
+		if len(fn.Blocks) == 0 {
+			continue
+		}
+		loopNo := 0
+		for _, h := range fn.Blocks {
+			h := h
+			var latches []*ssa.BasicBlock
+			for _, pb := range h.Preds {
+				if h.Dominates(pb) {
+					latches = append(latches, pb)
+				}
+			}
+			if len(latches) == 0 {
+				continue
+			}
+			body := map[*ssa.BasicBlock]bool{h: true}
+			work := append([]*ssa.BasicBlock{}, latches...)
+			for len(work) > 0 {
+				b := work[len(work)-1]
+				work = work[:len(work)-1]
+				if body[b] {
+					continue
+				}
+				body[b] = true
+				work = append(work, b.Preds...)
+			}
+			advances, other := 0, false
+			for b := range body {
+				for _, ins := range b.Instrs {
+					switch x := ins.(type) {
+					case *ssa.Store, *ssa.MapUpdate, *ssa.Send, *ssa.Go, *ssa.Defer:
+						other = true
+					case *ssa.Call:
+						cal := x.Call.StaticCallee()
+						switch {
+						case cal == adv:
+							advances++
+						case cal != nil && len(sigResults(cal)) == 1 && isBoolType(sigResults(cal)[0]) && len(x.Call.Args) == 1:
+							// a predicate on the character
+						case cal != nil && cal.Pkg != nil && cal.Pkg.Pkg.Path() == "unicode":
+						default:
+							other = true
+						}
+					case *ssa.BinOp:
+						if x.Op == token.ADD {
+							if b, ok := x.Type().Underlying().(*types.Basic); ok && b.Info()&types.IsString != 0 {
+								other = true // the text read so far grows
+							}
+						}
+					}
+				}
+			}
+			if advances == 0 {
+				continue
+			}
+			loopNo++
+			skips := func(c rune) (bool, bool) {
+				env := map[ssa.Value]constant.Value{}
+				for b := range body {
+					for _, ins := range b.Instrs {
+						if ld, ok := ins.(*ssa.UnOp); ok && ld.Op == token.MUL && fieldKey(ld.X) == "lexer.Lexer.ch" {
+							env[ld] = constant.MakeInt64(int64(c))
+						}
+					}
+				}
+				b := h
+				for steps := 0; steps < 50; steps++ {
+					for _, ins := range b.Instrs {
+						if cl, ok := ins.(*ssa.Call); ok && cl.Call.StaticCallee() == adv {
+							return true, true
+						}
+					}
+					switch t := terminator(b).(type) {
+					case *ssa.If:
+						v, ok := evalVal(t.Cond, env, 0)
+						if !ok || v.Kind() != constant.Bool {
+							return false, false
+						}
+						if constant.BoolVal(v) {
+							b = b.Succs[0]
+						} else {
+							b = b.Succs[1]
+						}
+					case *ssa.Jump:
+						b = b.Succs[0]
+					default:
+						return false, true
+					}
+					if !body[b] {
+						return false, true
+					}
+				}
+				return false, false
+			}
+			out = append(out, charLoop{fn: fn, h: h, no: loopNo, onlyAdvances: !other, skips: skips})
+		}
+	}
+	return out
+}
+
+// ---------------------------------------------------------------------------
+// R-IDENTSTART
+
+func init() {
+	register(&Rule{ID: "R-IDENTSTART", Floor: 0, Run: ruleIdentStart,
+		Text: "Whatever may continue a name may begin one, the decimal digits aside: the loop that reads an identifier goes on over letters, digits, `_` and `$`; for every character it goes on over, other than 0–9, the lexer's NextToken can reach that reader when the character is the first of a token.  (Both are evaluated symbolically per code point: the loop's condition, and the dispatch of NextToken up to the call of the reader with conditions on the current character decided and everything else left open.)  A guard in front of the reader that is narrower than the loop turns `_id` — a key of half the JSON documents there are — into an illegal character.  When the dispatch is not a static call (a table of readers) the rule says so and decides nothing."})
+}
+
+func ruleIdentStart(p *Program, r *Reporter) {
+	a := needAnchors(p, r)
+	if a == nil || a.lexNext == nil {
+		return
+	}
+	adv := lexAdvance(p)
+	if adv == nil {
+		r.Undecided("lexer advance", "-", "cannot find the function that reads the next character")
+		return
+	}
+	// the reader of names: a loop that keeps what it passes and goes on over letters and digits
+	var reader *charLoop
+	for _, lp := range charLoops(p, adv) {
+		lp := lp
+		if lp.onlyAdvances {
+			continue
+		}
+		l1, ok1 := lp.skips('a')
+		d1, ok2 := lp.skips('7')
+		s1, ok3 := lp.skips(' ')
+		if ok1 && ok2 && ok3 && l1 && d1 && !s1 {
+			if reader != nil {
+				r.Info("identifier reader", "-", "more than one loop reads names; nothing decided")
+				return
+			}
+			reader = &lp
+		}
+	}
+	if reader == nil {
+		r.Info("identifier reader", "-", "no loop of the lexer that keeps letters and digits found; nothing decided")
+		return
+	}
+	// functions that advance (other than pure skippers of white space)
+	advancing := map[*ssa.Function]bool{adv: true}
+	skipper := map[*ssa.Function]bool{}
+	for _, lp := range charLoops(p, adv) {
+		if lp.onlyAdvances {
+			if sp, ok := lp.skips(' '); ok && sp {
+				if le, ok := lp.skips('a'); ok && !le {
+					skipper[lp.fn] = true
+				}
+			}
+		}
+	}
+	for changed := true; changed; {
+		changed = false
+		for _, fn := range lexerFns(p) {
+			if advancing[fn] || skipper[fn] {
+				continue
+			}
+			for _, b := range fn.Blocks {
+				for _, ins := range b.Instrs {
+					if cc := callOf(ins); cc != nil && cc.StaticCallee() != nil && advancing[cc.StaticCallee()] && !advancing[fn] {
+						advancing[fn] = true
+						changed = true
+					}
+				}
+			}
+		}
+	}
+	next := a.lexNext
+	// is the reader called statically from NextToken (or from a function it calls before advancing)?
+	var callsReader func(fn *ssa.Function, depth int) bool
+	callsReader = func(fn *ssa.Function, depth int) bool {
+		if depth > 2 {
+			return false
+		}
+		for _, b := range fn.Blocks {
+			for _, ins := range b.Instrs {
+				if cc := callOf(ins); cc != nil && cc.StaticCallee() != nil {
+					if cc.StaticCallee() == reader.fn {
+						return true
+					}
+				}
+			}
+		}
+		return false
+	}
+	if !callsReader(next, 0) {
+		r.Info("dispatch to the identifier reader", p.Pos(next.Pos()), "the reader of names is not called directly by the function that dispatches on the first character (a table of readers?); nothing decided")
+		return
+	}
+	// mayReach(c): NextToken can reach the call of the reader with current character c
+	mayReach := func(c rune) bool {
+		env := map[ssa.Value]constant.Value{}
+		for _, b := range next.Blocks {
+			for _, ins := range b.Instrs {
+				if ld, ok := ins.(*ssa.UnOp); ok && ld.Op == token.MUL && fieldKey(ld.X) == "lexer.Lexer.ch" {
+					env[ld] = constant.MakeInt64(int64(c))
+				}
+			}
+		}
+		type st struct {
+			b   *ssa.BasicBlock
+			adv bool
+		}
+		seen := map[st]bool{}
+		found := false
+		var walk func(b *ssa.BasicBlock, advanced bool)
+		walk = func(b *ssa.BasicBlock, advanced bool) {
+			if found || seen[st{b, advanced}] {
+				return
+			}
+			seen[st{b, advanced}] = true
+			for _, ins := range b.Instrs {
+				if cc := callOf(ins); cc != nil && cc.StaticCallee() != nil {
+					if cc.StaticCallee() == reader.fn {
+						found = true
+						return
+					}
+					if advancing[cc.StaticCallee()] {
+						advanced = true
+					}
+				}
+			}
+			if t, ok := terminator(b).(*ssa.If); ok && !advanced {
+				if v, ok := evalVal(t.Cond, env, 0); ok && v.Kind() == constant.Bool {
+					if constant.BoolVal(v) {
+						walk(b.Succs[0], advanced)
+					} else {
+						walk(b.Succs[1], advanced)
+					}
+					return
+				}
+			}
+			for _, s := range b.Succs {
+				walk(s, advanced)
+			}
+		}
+		walk(next.Blocks[0], false)
+		return found
+	}
+	var probes []rune
+	for c := rune(1); c <= 0x3100; c++ {
+		probes = append(probes, c)
+	}
+	probes = append(probes, 0x10000, 0x1D7CE, 0x1F600)
+	cont, und, bad := 0, 0, ""
+	for _, c := range probes {
+		if c >= '0' && c <= '9' {
+			continue
+		}
+		v, ok := reader.skips(c)
+		if !ok {
+			und++
+			continue
+		}
+		if !v {
+			continue
+		}
+		cont++
+		if !mayReach(c) && bad == "" {
+			bad = fmt.Sprintf("%q (U+%04X) may continue a name but cannot begin one", c, c)
+		}
+	}
+	key := "every character that may continue a name, the digits 0-9 aside, may begin one"
+	switch {
+	case bad != "":
+		r.Fail(key, p.Pos(reader.fn.Pos()), bad+": the dispatch on the first character of a token does not reach the reader of names for it, so a name that begins with it is an illegal character — a script can no longer name the keys `_id`, `_version` of the document it is run against")
+	case und > 0:
+		r.Undecided(key, p.Pos(reader.fn.Pos()), fmt.Sprintf("the loop condition of the reader could not be evaluated for %d code point(s)", und))
+	case cont == 0:
+		r.Undecided(key, p.Pos(reader.fn.Pos()), "the reader's loop goes on over no character at all")
+	default:
+		r.OkNT(key, p.Pos(reader.fn.Pos()), fmt.Sprintf("%d code point(s) continue a name; NextToken reaches the reader for each of them", cont))
+	}
+}
